@@ -74,6 +74,10 @@ pub trait Scenario: Send + Sync + 'static {
     fn assumptions(&self) -> Vec<String> {
         vec![]
     }
+    /// scenario-specific context put into the keys of verdicts the framework itself derives (un-attributed panics, livelocks)
+    fn key_context(&self, _p: &Self::P) -> String {
+        String::new()
+    }
 }
 
 #[derive(Clone, Debug, Serialize, Deserialize)]
@@ -290,10 +294,24 @@ impl CheckCfg {
     }
 }
 
+/// "step_cap: run exceeded N scheduling points (task T in `op`)" with a non-empty op: the name of the library operation
+/// (declared by the harness with `op_mark`) the task was inside when the cap was hit
+pub fn livelocked_op(aborted: &str) -> Option<String> {
+    if !aborted.starts_with("step_cap") && !aborted.starts_with("op_step_bound") {
+        return None;
+    }
+    let start = aborted.find('`')? + 1;
+    let end = aborted.rfind('`')?;
+    if end <= start {
+        return None;
+    }
+    Some(aborted[start..end].to_string())
+}
+
 /// harness-level problems in a run (never reported as violations)
 fn harness_error_of(out: &RunOut, expected_abort_is_verdict: bool) -> Option<String> {
     if let Some(a) = &out.aborted {
-        if a.starts_with("step_cap") && !expected_abort_is_verdict {
+        if a.starts_with("step_cap") && !expected_abort_is_verdict && livelocked_op(a).is_none() {
             return Some(a.clone());
         }
     }
@@ -420,10 +438,23 @@ pub fn run_batch<S: Scenario>(scn: &Arc<S>, cfg: &CheckCfg, tag: &str, budget: D
                         for v in out.violations.iter().filter(|v| v.property != scn.property()) {
                             *stats.incidental.entry(format!("{}:{}", v.property, v.key)).or_insert(0) += 1;
                         }
+                        // an operation of the code under test that does not return within the whole-run step cap although the
+                        // scheduler is fair (starvation bound): a livelock / deadlock
+                        if out.violations.is_empty() {
+                            if let Some(a) = &out.aborted {
+                                if let Some(op) = livelocked_op(a) {
+                                    violations.push(Violation { property: scn.property().into(), oracle: "operation_never_returns".into(), key: format!("{}/livelock/{}{}", scn.name(), scn.key_context(&p), op), detail: a.clone() });
+                                }
+                            }
+                        }
                         if out.violations.is_empty() {
                             if let Some(pm) = &out.panic {
-                                if harness_error_of(&out, false).is_none() {
-                                    violations.push(Violation { property: scn.property().into(), oracle: "panic".into(), key: panic_key(scn.name(), pm), detail: pm.clone() });
+                                if pm.contains("Cannot allocate memory") {
+                                    // the log channel could not map its file: address space used up by mappings that aborted
+                                    // runs leaked on purpose -- an environment limit, not a behaviour of the code under test
+                                    *stats.probes.entry("harness.runs_skipped.mmap_out_of_address_space".into()).or_insert(0) += 1;
+                                } else if harness_error_of(&out, false).is_none() {
+                                    violations.push(Violation { property: scn.property().into(), oracle: "panic".into(), key: panic_key(scn.name(), &scn.key_context(&p), pm), detail: pm.clone() });
                                 }
                             }
                         }
@@ -542,21 +573,28 @@ pub fn determinism_check<S: Scenario>(scn: &Arc<S>, cfg: &CheckCfg, tag: &str, s
     Ok(checked)
 }
 
-pub fn panic_key(scn_name: &str, panic_message: &str) -> String {
+pub fn panic_key(scn_name: &str, context: &str, panic_message: &str) -> String {
     // keyed by where it panicked (file:line) rather than by the formatted message
     let site = panic_message.rsplit('@').next().unwrap_or("").trim();
-    format!("{}/panic/{}", scn_name, site)
+    format!("{}/panic/{}{}", scn_name, context, site)
 }
 
-fn same_violation(out: &RunOut, key: &str, property: &str, scn_name: &str) -> bool {
+fn same_violation(out: &RunOut, key: &str, property: &str, scn_name: &str, context: &str) -> bool {
     if out.violations.iter().any(|v| v.key == key) {
         return true;
+    }
+    if out.violations.is_empty() {
+        if let Some(op) = out.aborted.as_deref().and_then(livelocked_op) {
+            if format!("{}/livelock/{}{}", scn_name, context, op) == key {
+                return true;
+            }
+        }
     }
     // unattributed panic
     if out.violations.is_empty() {
         if let Some(pm) = &out.panic {
             let _ = property;
-            return panic_key(scn_name, pm) == key;
+            return panic_key(scn_name, context, pm) == key;
         }
     }
     false
@@ -588,7 +626,7 @@ pub fn minimise<S: Scenario>(scn: &Arc<S>, f: &Found<S::P>, budget_runs: u64, de
             let cand = scn.with_sched(p, spec);
             let out = scn.execute(&cand, false);
             *runs += 1;
-            if same_violation(&out, &key, &prop, scn.name()) {
+            if same_violation(&out, &key, &prop, scn.name(), &scn.key_context(&cand)) {
                 return Some((cand, out));
             }
         }
@@ -607,7 +645,7 @@ pub fn minimise<S: Scenario>(scn: &Arc<S>, f: &Found<S::P>, budget_runs: u64, de
             let with_script = scn.with_sched(&cand, scn.sched(&cand).replaying(best_out.decisions.clone()));
             let out = scn.execute(&with_script, false);
             runs += 1;
-            if same_violation(&out, &key, &prop, scn.name()) {
+            if same_violation(&out, &key, &prop, scn.name(), &scn.key_context(&with_script)) {
                 best_p = with_script;
                 best_out = out;
                 progress = true;
@@ -639,7 +677,7 @@ pub fn minimise<S: Scenario>(scn: &Arc<S>, f: &Found<S::P>, budget_runs: u64, de
             let cand = scn.with_sched(&best_p, spec);
             let out = scn.execute(&cand, false);
             runs += 1;
-            if same_violation(&out, &key, &prop, scn.name()) && out.preemptions < best_out.preemptions {
+            if same_violation(&out, &key, &prop, scn.name(), &scn.key_context(&cand)) && out.preemptions < best_out.preemptions {
                 best_p = cand;
                 best_out = out;
                 break 'outer;
@@ -656,7 +694,7 @@ pub fn minimise<S: Scenario>(scn: &Arc<S>, f: &Found<S::P>, budget_runs: u64, de
             let cand = scn.with_sched(&best_p, scn.sched(&best_p).replaying(full[..mid].to_vec()));
             let out = scn.execute(&cand, false);
             runs += 1;
-            if same_violation(&out, &key, &prop, scn.name()) {
+            if same_violation(&out, &key, &prop, scn.name(), &scn.key_context(&cand)) {
                 hi = mid;
                 best_script = Some((full[..mid].to_vec(), out));
             } else {
@@ -720,7 +758,7 @@ pub fn replay<S: Scenario>(scn: &Arc<S>, file: &ReplayFile, verbose: bool) -> Re
     if scn.engine() == "T" && out.script_mismatch > 0 {
         return Err(format!("the code asked for {} decisions the replay file does not explain", out.script_mismatch));
     }
-    Ok(same_violation(&out, &file.violation.key, &file.violation.property, scn.name()))
+    Ok(same_violation(&out, &file.violation.key, &file.violation.property, scn.name(), &scn.key_context(&p)))
 }
 
 pub fn sanitize(s: &str) -> String {
@@ -932,7 +970,11 @@ impl<S: Scenario> PartRunner for Part<S> {
         let mut seen_new: HashSet<String> = HashSet::new();
         let survey = std::env::var_os("VERIF_SURVEY").is_some();
         for f in r.found.iter() {
-            if let Ok(only) = std::env::var("VERIF_ONLY_KEY") {
+            if let Ok(only) = std::env::var("VERIF_ONLY_GLOB") {
+                if !glob_match(&only, &f.violation.key) {
+                    continue;
+                }
+            } else if let Ok(only) = std::env::var("VERIF_ONLY_KEY") {
                 if !f.violation.key.contains(&only) {
                     continue;
                 }
